@@ -24,8 +24,8 @@ RULE = (
     "porosity and connate water. Non-trivial = total mobility positive on >= 5 nodes and not all "
     "equal (except the 'constant' family whose closed form is checked); distinct = descriptor hash."
 )
-MIN_NONTRIVIAL = {"quick": 100, "thorough": 1500}
-SHARDS = {"quick": 1, "thorough": 8}
+MIN_NONTRIVIAL = {"quick": 100, "thorough": 9000}
+SHARDS = {"quick": 1, "thorough": 16}
 GENERATOR = {"grids": "5..400 nodes, uniform / non-uniform", "relperm": "exponents 1..4, S_wc 0.05..0.3, S_or,S_gc 0..0.15", "densities": "0.1..60 each; scaled by 2^k for the exact scaling clause"}
 ASSUMPTIONS = [
     "total mass mobility as documented in docs/background.md (multiphase pseudopressure integrand)",
@@ -57,7 +57,7 @@ def _grid(rng, n, lo, hi, kind):
 
 def generate(ck):
     rng = ck.rng
-    n = 150 if ck.tier == "quick" else 2400
+    n = 150 if ck.tier == "quick" else 15000
     descs = []
     for i in range(n):
         dens = [float(v) for v in 10.0 ** rng.uniform(-1, 1.8, 3)]
